@@ -38,7 +38,7 @@ ASSUMPTIONS = [
 MAX_LEAVES = {"quick": 5, "thorough": 8}
 TAMPERS = [
     "cb-parity-bit", "cb-version-bits", "cb-internal-key", "cb-path-hash", "cb-hash-dropped", "cb-hash-duplicated",
-    "cb-hash-appended", "cb-truncated", "cb-hashes-swapped", "script-byte", "script-appended", "script-truncated",
+    "cb-hash-appended", "cb-truncated", "cb-junk-appended", "cb-hashes-swapped", "script-byte", "script-appended", "script-truncated",
     "script-push-reencoded", "other-leaf-script",
 ]
 
@@ -725,6 +725,9 @@ def tamper_catalogue(ctx, rng, cb_bytes, script_raw, cmds, q_xonly, other_script
     tamper_one(ctx, "cb-hash-appended", cb_bytes + rng.randbytes(32), script_raw, q_xonly, orig)
     tamper_one(ctx, "cb-hash-appended", cb_bytes + rt.tapleaf_hash(script_raw, cb_bytes[0] & 0xFE), script_raw, q_xonly, orig)
     tamper_one(ctx, "cb-truncated", cb_bytes[:-1], script_raw, q_xonly, orig)
+    # trailing bytes that do not make up a whole path element (length no longer 33 + 32m)
+    for extra in (1, rng.randrange(2, 31), 31):
+        tamper_one(ctx, "cb-junk-appended", cb_bytes + rng.randbytes(extra), script_raw, q_xonly, orig)
     tamper_one(ctx, "cb-truncated", cb_bytes[:rng.randrange(1, len(cb_bytes))], script_raw, q_xonly, orig)
     # leaf script bytes
     n = len(script_raw)
